@@ -10,9 +10,11 @@
      func.chop(n)          -> [chop_c]     needs 0 <= n <= size
      func.remove(p, n)     -> [remove_c]   needs 0 <= p, 0 <= n, p+n <= size
    (Qt's own mid/chop/truncate/remove clamp silently; the checked model is stricter on purpose: an
-   out-of-range argument is an arithmetic slip even where Qt would forgive it.)  EVERY loop of the
+   out-of-range argument is an arithmetic slip even where Qt would forgive it.)  EVERY value the
+   C++ computes in an `int` by +, -, ++ or -- (positions, bracket counters, lengths) goes through
+   [ck], which returns [None] outside [-2^31, 2^31).  EVERY loop of the
    C++ carries explicit fuel computed from the input length and returns [None] when it runs out.
-   So [cleanup s = None] iff some index is out of range or some loop does not finish within its
+   So [cleanup s = None] iff some index is out of range, some int overflows or some loop does not finish within its
    fuel; [cleanup s = Some r] is the value the C++ computes.  The searching primitives of
    QByteArray (indexOf, lastIndexOf, startsWith, endsWith, replace, ==) are Qt code: they are
    modelled by total structural functions and are outside the checked part. *)
@@ -26,6 +28,11 @@ Definition len (b : bytes) : Z := Z.of_nat (length b).
 Definition bind {A B} (x : option A) (f : A -> option B) : option B :=
   match x with Some a => f a | None => None end.
 Notation "'do' x <- e ; k" := (bind e (fun x => k)) (at level 200, x name, e at level 100, k at level 200).
+
+(* ---- a C++ int result ---------------------------------------------------------------------- *)
+Definition INT_MAX : Z := 2147483647.
+Definition INT_MIN : Z := -2147483648.
+Definition ck (z : Z) : option Z := if (INT_MIN <=? z) && (z <=? INT_MAX) then Some z else None.
 
 (* ---- checked accesses -------------------------------------------------------------------- *)
 Definition at_ (b : bytes) (i : Z) : option N := if i <? 0 then None else nth_error b (Z.to_nat i).
@@ -121,12 +128,13 @@ Fixpoint fbr_loop (fuel : nat) (f : bytes) (open close : N) (pos count : Z) : op
   match fuel with O => None | S fu =>
   if (0 <=? pos) && (0 <? count) then
     do c <- at_ f pos;
-    let count' := if (c =? close)%N then count + 1 else if (c =? open)%N then count - 1 else count in
-    fbr_loop fu f open close (pos - 1) count'
-  else Some (if count =? 0 then pos + 1 else -1)
+    do count' <- (if (c =? close)%N then ck (count + 1) else if (c =? open)%N then ck (count - 1) else Some count);
+    do pos' <- ck (pos - 1);
+    fbr_loop fu f open close pos' count'
+  else if count =? 0 then ck (pos + 1) else Some (-1)
   end.
 Definition fbr (f : bytes) (open close : N) (start : Z) : option Z :=
-  if start <=? 0 then Some (-1) else fbr_loop (S (length f)) f open close (start - 1) 1.
+  if start <=? 0 then Some (-1) else do p <- ck (start - 1); fbr_loop (S (length f)) f open close p 1.
 
 (* while (func.endsWith(' ')) func.chop(1); *)
 Fixpoint chop_spaces (fuel : nat) (f : bytes) : option bytes :=
@@ -137,9 +145,10 @@ Fixpoint fp_scan (fuel : nat) (f : bytes) (i stop depth args : Z) : option Z :=
   match fuel with O => None | S fu =>
   if i <? stop then
     do c <- at_ f i;
-    if (c =? c_lpar)%N then fp_scan fu f (i + 1) stop (depth + 1) (if depth =? 0 then i else args)
-    else if (c =? c_rpar)%N then fp_scan fu f (i + 1) stop (depth - 1) args
-    else fp_scan fu f (i + 1) stop depth args
+    do i' <- ck (i + 1);
+    if (c =? c_lpar)%N then do d' <- ck (depth + 1); fp_scan fu f i' stop d' (if depth =? 0 then i else args)
+    else if (c =? c_rpar)%N then do d' <- ck (depth - 1); fp_scan fu f i' stop d' args
+    else fp_scan fu f i' stop depth args
   else Some args
   end.
 
@@ -153,11 +162,11 @@ Fixpoint strip_quals (cfg : cu_cfg) (fuel : nat) (f : bytes) : option bytes :=
 
 Fixpoint skip_spaces_left (fuel : nat) (f : bytes) (p : Z) : option Z :=
   match fuel with O => None | S fu =>
-  if 0 <=? p then do c <- at_ f p; if (c =? c_sp)%N then skip_spaces_left fu f (p - 1) else Some p
+  if 0 <=? p then do c <- at_ f p; if (c =? c_sp)%N then do p' <- ck (p - 1); skip_spaces_left fu f p' else Some p
   else Some p end.
 Fixpoint skip_ident_left (fuel : nat) (f : bytes) (p : Z) : option Z :=
   match fuel with O => None | S fu =>
-  if 0 <=? p then do c <- at_ f p; if is_lon_latin1 c || (c =? c_us)%N then skip_ident_left fu f (p - 1) else Some p
+  if 0 <=? p then do c <- at_ f p; if is_lon_latin1 c || (c =? c_us)%N then do p' <- ck (p - 1); skip_ident_left fu f p' else Some p
   else Some p end.
 
 (* operator branch: Some (Some newfunc) if extracted, Some None if not, None on a fault *)
@@ -165,25 +174,26 @@ Fixpoint op_scan (fuel : nat) (f : bytes) (sp : Z) : option (option bytes) :=
   match fuel with O => None | S fu =>
   if 0 <=? sp then
     do c <- at_ f sp;
-    do isq <- (if (1 <=? sp) && (c =? c_colon)%N then do d <- at_ f (sp - 1); Some (d =? c_colon)%N else Some false);
+    do isq <- (if (1 <=? sp) && (c =? c_colon)%N then do q <- ck (sp - 1); do d <- at_ f q; Some (d =? c_colon)%N else Some false);
     if isq then
-      do sp1 <- skip_spaces_left (S (length f)) f (sp - 2);
+      do s2 <- ck (sp - 2);
+      do sp1 <- skip_spaces_left (S (length f)) f s2;
       do c1 <- (if 0 <=? sp1 then do x <- at_ f sp1; Some (Some x) else Some None);
       do r1 <- (match c1 with
-                | Some x => if (x =? c_rpar)%N then do o <- fbr f c_lpar c_rpar (sp1 + 1); Some (if o =? -1 then None else Some (o - 1)) else Some None
+                | Some x => if (x =? c_rpar)%N then do st <- ck (sp1 + 1); do o <- fbr f c_lpar c_rpar st; if o =? -1 then Some None else do n <- ck (o - 1); Some (Some n) else Some None
                 | None => Some None end);
       match r1 with
       | Some nsp => op_scan fu f nsp
       | None =>
         do r2 <- (match c1 with
-                  | Some x => if (x =? c_gt)%N then do o <- fbr f c_lt c_gt (sp1 + 1); Some (if o =? -1 then None else Some (o - 1)) else Some None
+                  | Some x => if (x =? c_gt)%N then do st <- ck (sp1 + 1); do o <- fbr f c_lt c_gt st; if o =? -1 then Some None else do n <- ck (o - 1); Some (Some n) else Some None
                   | None => Some None end);
         match r2 with
         | Some nsp => op_scan fu f nsp
         | None => do sp2 <- skip_ident_left (S (length f)) f sp1; op_scan fu f sp2
         end
       end
-    else if (c =? c_sp)%N then do g <- mid_c f (sp + 1) (-1); Some (Some g)
+    else if (c =? c_sp)%N then do st <- ck (sp + 1); do g <- mid_c f st (-1); Some (Some g)
     else Some None
   else Some None
   end.
@@ -192,13 +202,14 @@ Fixpoint noop_scan (fuel : nat) (f : bytes) (pos pc ac : Z) : option bytes :=
   match fuel with O => None | S fu =>
   if 0 <=? pos then
     do c <- at_ f pos;
-    if (c =? c_rpar)%N then noop_scan fu f (pos - 1) (pc + 1) ac
-    else if (c =? c_lpar)%N && (0 <? pc) then noop_scan fu f (pos - 1) (pc - 1) ac
-    else if (c =? c_gt)%N then noop_scan fu f (pos - 1) pc (ac + 1)
-    else if (c =? c_lt)%N && (0 <? ac) then noop_scan fu f (pos - 1) pc (ac - 1)
-    else if (0 <? pc) || (0 <? ac) then noop_scan fu f (pos - 1) pc ac
-    else if (c =? c_sp)%N then mid_c f (pos + 1) (-1)
-    else noop_scan fu f (pos - 1) pc ac
+    do pos' <- ck (pos - 1);
+    if (c =? c_rpar)%N then do pc' <- ck (pc + 1); noop_scan fu f pos' pc' ac
+    else if (c =? c_lpar)%N && (0 <? pc) then do pc' <- ck (pc - 1); noop_scan fu f pos' pc' ac
+    else if (c =? c_gt)%N then do ac' <- ck (ac + 1); noop_scan fu f pos' pc ac'
+    else if (c =? c_lt)%N && (0 <? ac) then do ac' <- ck (ac - 1); noop_scan fu f pos' pc ac'
+    else if (0 <? pc) || (0 <? ac) then noop_scan fu f pos' pc ac
+    else if (c =? c_sp)%N then do st <- ck (pos + 1); mid_c f st (-1)
+    else noop_scan fu f pos' pc ac
   else Some f
   end.
 
@@ -212,27 +223,30 @@ Fixpoint inside_template (fuel : nat) (f : bytes) (i ad : Z) : option bool :=
   match fuel with O => None | S fu =>
   if 0 <=? i then
     do c <- at_ f i;
-    if (c =? c_gt)%N then inside_template fu f (i - 1) (ad + 1)
-    else if (c =? c_lt)%N then (if ad =? 0 then Some true else inside_template fu f (i - 1) (ad - 1))
-    else inside_template fu f (i - 1) ad
+    do i' <- ck (i - 1);
+    if (c =? c_gt)%N then do ad' <- ck (ad + 1); inside_template fu f i' ad'
+    else if (c =? c_lt)%N then (if ad =? 0 then Some true else do ad' <- ck (ad - 1); inside_template fu f i' ad')
+    else inside_template fu f i' ad
   else Some false
   end.
 (* pos >= 8 && func.mid(pos - 8, 8) == "operator" *)
 Definition op_before (f : bytes) (p : Z) : option bool :=
-  if 8 <=? p then do m <- mid_c f (p - 8) 8; Some (beqb m s_operator) else Some false.
+  if 8 <=? p then do q <- ck (p - 8); do m <- mid_c f q 8; Some (beqb m s_operator) else Some false.
 Fixpoint empty_parens (fuel : nat) (f : bytes) (pos : Z) : option bytes :=
   match fuel with O => None | S fu =>
   let p := index_of f s_pp pos in
   if p =? -1 then Some f
   else do isop <- op_before f p;
-       if isop then empty_parens fu f (p + 4)
-       else do ins <- inside_template (S (length f)) f (p - 1) 0;
-            if ins then empty_parens fu f (p + 4) else do g <- remove_c f p 2; empty_parens fu g p
+       do p4 <- ck (p + 4);
+       if isop then empty_parens fu f p4
+       else do pm <- ck (p - 1);
+            do ins <- inside_template (S (length f)) f pm 0;
+            if ins then empty_parens fu f p4 else do g <- remove_c f p 2; empty_parens fu g p
   end.
 
 Fixpoint all_opchars (cfg : cu_cfg) (fuel : nat) (f : bytes) (i stop : Z) : option bool :=
   match fuel with O => None | S fu =>
-  if i <=? stop then do c <- at_ f i; if existsb (fun o => (o =? c)%N) (opchars cfg) then all_opchars cfg fu f (i + 1) stop else Some false
+  if i <=? stop then do c <- at_ f i; if existsb (fun o => (o =? c)%N) (opchars cfg) then do i' <- ck (i + 1); all_opchars cfg fu f i' stop else Some false
   else Some true end.
 Fixpoint strip_templates (cfg : cu_cfg) (fuel : nat) (f : bytes) : option bytes :=
   match fuel with O => None | S fu =>
@@ -240,24 +254,28 @@ Fixpoint strip_templates (cfg : cu_cfg) (fuel : nat) (f : bytes) : option bytes 
   if ca =? -1 then Some f else
   let oc := last_index_of f s_operator ca in
   do stop <- (if (oc =? -1) then Some false
-              else let oe := oc + 8 in if oe <=? ca then all_opchars cfg (S (length f)) f oe ca else Some false);
+              else do oe <- ck (oc + 8); if oe <=? ca then all_opchars cfg (S (length f)) f oe ca else Some false);
   if stop then Some f else
   do oa <- fbr f c_lt c_gt ca;
   if oa =? -1 then Some f
   else do isop <- op_before f oa;
        if isop then Some f
-       else do inner <- mid_c f (oa + 1) (ca - oa - 1);
+       else do oa1 <- ck (oa + 1);
+            do w <- ck (ca - oa);
+            do w1 <- ck (w - 1);
+            do inner <- mid_c f oa1 w1;
             if starts_with inner s_lambda then Some f
-            else do g <- remove_c f oa (ca - oa + 1); strip_templates cfg fu g
+            else do w2 <- ck (w + 1); do g <- remove_c f oa w2; strip_templates cfg fu g
   end.
 
 (* the `operator` look-behind of phase 5, with the source's numbers *)
 Definition is_operator_call (cfg : cu_cfg) (f : bytes) (op : Z) : option bool :=
   if g_ge cfg <=? op then
-    do m <- mid_c f (op - g_off cfg) (g_len cfg);
+    do q <- ck (op - g_off cfg);
+    do m <- mid_c f q (g_len cfg);
     if beqb m (kw cfg) then
       (if op =? g_eq cfg then Some true
-       else do pc <- at_ f (op - g_at cfg); Some (negb (is_lon_char_as_uint pc) && negb (pc =? c_us)%N))
+       else do q2 <- ck (op - g_at cfg); do pc <- at_ f q2; Some (negb (is_lon_char_as_uint pc) && negb (pc =? c_us)%N))
     else Some false
   else Some false.
 
@@ -266,7 +284,7 @@ Definition cleanup_cfg (cfg : cu_cfg) (func0 : bytes) : option bytes :=
   let n0 := S (length func0) in
   (* [with T = int] *)
   do f1 <- (if ends_with func0 [c_rbr] && negb (starts_with func0 [43%N]) && negb (starts_with func0 [45%N])
-            then do ob <- fbr func0 c_lbr c_rbr (len func0 - 1); if ob =? -1 then Some func0 else truncate_c func0 ob
+            then do st <- ck (len func0 - 1); do ob <- fbr func0 c_lbr c_rbr st; if ob =? -1 then Some func0 else truncate_c func0 ob
             else Some func0);
   do f2 <- chop_spaces n0 f1;
   let f3 := replace_all f2 s_operator_sp s_operator in
@@ -275,9 +293,9 @@ Definition cleanup_cfg (cfg : cu_cfg) (func0 : bytes) : option bytes :=
   do fp <- (if poi =? -1 then Some None else
             let pp := index_of f3 (B [40;42]) 0 in
             if (negb (pp =? -1)) && (pp <? poi) then
-              let ns := pp + 2 in
+              do ns <- ck (pp + 2);
               do ap <- fp_scan n0 f3 ns poi 0 (-1);
-              if (negb (ap =? -1)) && (ns <? ap) then do g <- mid_c f3 ns (ap - ns); Some (Some g) else Some None
+              if (negb (ap =? -1)) && (ns <? ap) then do w <- ck (ap - ns); do g <- mid_c f3 ns w; Some (Some g) else Some None
             else Some None);
   do f7 <- (match fp with
    | Some f => Some f
@@ -291,14 +309,15 @@ Definition cleanup_cfg (cfg : cu_cfg) (func0 : bytes) : option bytes :=
      do f5 <- strip_quals cfg n0 f4;
      let opos := last_index f5 s_operator in
      do f6 <- (if negb (opos =? -1) then
-                 do sp <- skip_spaces_left n0 f5 (opos - 1);
+                 do o1 <- ck (opos - 1);
+                 do sp <- skip_spaces_left n0 f5 o1;
                  do r <- op_scan n0 f5 sp;
                  match r with
                  | Some g => Some g
                  | None => let fs := index_of f5 [c_sp] 0 in
-                           if (negb (fs =? -1)) && (fs <? opos) then mid_c f5 (fs + 1) (-1) else Some f5
+                           if (negb (fs =? -1)) && (fs <? opos) then do st <- ck (fs + 1); mid_c f5 st (-1) else Some f5
                  end
-               else noop_scan n0 f5 (len f5 - 1) 0 0);
+               else do st <- ck (len f5 - 1); noop_scan n0 f5 st 0 0);
      strip_lead n0 f6
    end);
   do f8 <- empty_parens (2 * n0 + 8) f7 0;
